@@ -5,8 +5,20 @@ import (
 	"verifharness/props/c01"
 	"verifharness/props/c02"
 	"verifharness/props/c04"
+	"verifharness/props/c05"
+	"verifharness/props/c06"
 	"verifharness/props/c07"
+	"verifharness/props/c12"
+	"verifharness/props/c13"
+	"verifharness/props/c14"
+	"verifharness/props/c17"
+	"verifharness/props/c18"
+	"verifharness/props/c21"
+	"verifharness/props/c22"
+	"verifharness/props/c23"
 	"verifharness/props/c24"
+	"verifharness/props/c25"
+	"verifharness/props/c26"
 	"verifharness/props/c28"
 	"verifharness/props/c29"
 	"verifharness/props/c30"
@@ -15,12 +27,26 @@ import (
 	"verifharness/props/c33"
 	"verifharness/props/c34"
 	"verifharness/props/c35"
+	"verifharness/props/c38"
 )
 
 var checks = map[string]driver.Check{
+	"C38": {Level: "exploration", Fn: c38.Run},
+	"C26": {Level: "fault_enumeration", Fn: c26.Run},
+	"C25": {Level: "fault_enumeration", Fn: c25.Run},
+	"C23": {Level: "fault_enumeration", Fn: c23.Run},
+	"C22": {Level: "fault_enumeration", Fn: c22.Run},
+	"C21": {Level: "exploration", Fn: c21.Run},
+	"C18": {Level: "exploration", Fn: c18.Run},
+	"C17": {Level: "exploration", Fn: c17.Run},
+	"C14": {Level: "exploration", Fn: c14.Run},
+	"C13": {Level: "exploration", Fn: c13.Run},
+	"C12": {Level: "exploration", Fn: c12.Run},
 	"C01": {Level: "fault_enumeration", Fn: c01.Run},
 	"C02": {Level: "exploration", Fn: c02.Run},
 	"C04": {Level: "exploration", Fn: c04.Run},
+	"C05": {Level: "exploration", Fn: c05.Run},
+	"C06": {Level: "exploration", Fn: c06.Run},
 	"C07": {Level: "fault_enumeration", Fn: c07.Run},
 	"C24": {Level: "exploration", Fn: c24.Run},
 	"C28": {Level: "exploration", Fn: c28.Run},
